@@ -616,7 +616,10 @@ def corpus_resume(tier, seed, rnd):
         if kind == 1:
             c.update(adaptive=False, n_steps=[2, 3, 4][(i // 4) % 3])
         elif kind == 2:
-            c.update(max_n_steps=[2, 3, 6][(i // 4) % 3])
+            # peaked: the rescaled floor binds.  (Whitening a population that has collapsed onto one particle has
+            # zero spread and yields NaN coordinates - a property of the whitening, kept out of this corpus.)
+            c.update(max_n_steps=[2, 3, 6][(i // 4) % 3], width=[0.05, 0.1][(i // 4) % 2], N=8,
+                     precond=["none", "default"][(i // 8) % 2])
         elif kind == 3:
             c.update(min_step=0.15)
         if i % 3 != 1:
@@ -1284,7 +1287,10 @@ def rule_default(g, r, fin):
 
 
 CHECKS = {
-    "C06": dict(corpus=lambda t, s, r: corpus_schedule(t, s, r) + corpus_rerun(t, s, r) + corpus_resume_schedule(t, s, r), e1=[e1_tempering],
+    "C06": dict(corpus=lambda t, s, r: corpus_schedule(t, s, r) + corpus_rerun(t, s, r) + corpus_resume_schedule(t, s, r)
+                # the schedule of a run that was interrupted and resumed (every route) is a schedule too
+                + [dict(x, id="r" + x["id"]) for x in corpus_resume(t, s, r)][: (100 if t == "quick" else 2000)],
+                e1=[e1_tempering],
                 extra=lambda v, t, s: dict(apalache_inductive(v, t, s) or {}, **__import__("e3_controller").replay(v, t, s, "C06"))),
     "C07": dict(corpus=lambda t, s, r: corpus_schedule(t, s, r) + corpus_rerun(t, s, r), e1=[e1_tempering],
                 extra=lambda v, t, s: __import__("e3_controller").replay(v, t, s, "C07")),
@@ -1293,9 +1299,12 @@ CHECKS = {
                 + [dict(x, id="r" + x["id"]) for x in corpus_resume(t, s, r)][: (120 if t == "quick" else 3000)]
                 + corpus_rerun(t, s, r),
                 e1=[e1_smcrun]),
-    "C09": dict(corpus=lambda t, s, r: corpus_general(t, s, r, 150 if t == "quick" else 3000), e1=[],
+    "C09": dict(corpus=lambda t, s, r: corpus_general(t, s, r, 150 if t == "quick" else 3000) + corpus_kernel_temperature(t, s, r), e1=[],
                 extra=lambda v, t, s: __import__("e3_resample").replay(v, t, s)),
-    "C10": dict(corpus=lambda t, s, r: corpus_general(t, s, r) + corpus_calls(t, s, r), e1=[e1_smcrun],
+    "C10": dict(corpus=lambda t, s, r: corpus_general(t, s, r) + corpus_calls(t, s, r)
+                # populations restored from a file (fit ; run ; refit ; run in one context, then resume_from_file)
+                + [dict(x, id="f" + x["id"]) for x in corpus_file(t, s, r) if x["params"]["cfg"].get("ctx")][: (40 if t == "quick" else 600)],
+                e1=[e1_smcrun],
                 extra=lambda v, t, s: dict(__import__("e3_initialdraw").replay(v, t, s, "C10"), **reload_route(v, t, s))),
     "C11": dict(corpus=corpus_resume, e1=[e1_smcrun]),
     "C12": dict(corpus=lambda t, s, r: corpus_file(t, s, r) + [dict(x, id="r" + x["id"]) for x in corpus_resume(t, s, r)][: (150 if t == "quick" else 3000)],
